@@ -64,7 +64,7 @@ class BoomError(Exception):
 
 FEEDS = {"f0": b"", "fa": b"a", "fn": b"b\n", "fcd": b"cd", "f5": b"efghi"}
 CONSUMERS = [
-    "read1", "read2", "readall", "readany", "readline", "untild", "exact2",
+    "read1", "read2", "readall", "readany", "readline", "untild", "untilna", "exact2",
     "readchunk", "nowait1", "nowaitall", "iterchunked2", "iterchunks",
 ]
 
@@ -162,6 +162,8 @@ class Sim:
             return r.readline()
         if op == "untild":
             return r.readuntil(b"d")
+        if op == "untilna":
+            return r.readuntil(b"\na")      # two bytes: feeds b"b\n" + b"a" put the separator across two reads
         if op == "exact2":
             return r.readexactly(2)
         if op == "readchunk":
@@ -213,7 +215,7 @@ class Sim:
                 # bytes taken by the op before the error are lost with it
                 self._resync()
                 return ("raise", "Boom")
-            if isinstance(exc, LineTooLong) and op in ("readline", "untild"):
+            if isinstance(exc, LineTooLong) and op in ("readline", "untild", "untilna"):
                 lost = len(self.pending) - r._size
                 if lost <= r._high_water:
                     self.problem("linetoolong-early", f"{op} raised LineTooLong after only {lost} bytes (max {r._high_water})")
@@ -293,6 +295,11 @@ class Sim:
                 self.problem("short-line", f"readuntil returned {data!r} without separator before EOF")
             if b"d" in data[:-1]:
                 self.problem("long-line", f"readuntil returned {data!r} spanning a separator")
+        elif op == "untilna":
+            if not data.endswith(b"\na") and not (self.eof and not self.pending):
+                self.problem("short-line", f"readuntil(b'\\na') returned {data!r} without separator before EOF")
+            if b"\na" in data[:-1]:
+                self.problem("long-line", f"readuntil(b'\\na') returned {data!r} spanning a separator")
         elif op == "exact2":
             if len(data) != 2:
                 self.problem("overlong-read", f"readexactly(2) returned {data!r}")
